@@ -144,6 +144,10 @@ def shrink(text, fails, atoms=("1", "x", "#t", "'()"), max_calls=400):
                     cands.append(a)
             for c in _children(node):
                 cands.append(c)
+                # peel a thunk: (f ... (lambda () B) ...) -> B
+                cc = _children(c)
+                if isinstance(c, tuple) and not isinstance(c, Pre) and len(cc) >= 3 and cc[0] in ("lambda", "λ"):
+                    cands.append(cc[-1])
             cur = size(top)
             for c in cands:
                 t2 = _replace(top, p, c)
